@@ -147,3 +147,13 @@ Proof.
   split; [|vm_compute; repeat split].
   repeat constructor; cbn; try discriminate; reflexivity.
 Qed.
+
+(** An observation, not a violation of C12: the handshake's write-back stores its whole (stale)
+    copy, so a tag merged between the handshake's read and its write-back is dropped again
+    (maintain.go's write-backs re-read under the lock and only change one field). *)
+Example C12_stale_writeback_reverts_tags :
+  let t2 := Cert [104; 49]%N [[97]%N; [98]%N] true [] [[117]%N] 0%Z [] in
+  let s := run 0 init [OAdd ex_c1 None; OAdd t2 None; OWriteBack ex_stale] in
+  map c_tags (map snd (cache (run 0 init [OAdd ex_c1 None; OAdd t2 None]))) = [[[116]; [117]]]%N /\
+  map c_tags (map snd (cache s)) = [[[116]]]%N.
+Proof. vm_compute. split; reflexivity. Qed.
